@@ -36,7 +36,7 @@ def gen_cases(tier, seed):
         yield {'family': 'history', 'idx': i, 'seed': seed}
     # dumps of one sequence placed in ONE flow (two dump_to_sql steps, same database file); rows vs batch size
     combos = [(3, 1000, 'rewrite', 'append'), (9, 3, 'rewrite', 'append'), (2, 1, 'rewrite', 'update'),
-              (12, 2, 'append', 'update')]
+              (12, 2, 'append', 'update'), (3, 1000, 'rewrite', 'update')]
     if tier == 'thorough':
         combos += [(n, b, m1, m2) for n in (1, 4, 5, 30) for b in (1, 3) for m1 in ('rewrite', 'append')
                    for m2 in ('append', 'update')]
@@ -149,7 +149,7 @@ def run_same_flow(case):
         except Exception:
             pass
     expected = rows + rows if m2 == 'append' else rows
-    one_batch = n <= b + 1
+    one_batch = n <= b          # (the writer flushes - and hands rows on - as soon as it holds MORE than batch_size rows)
     if not out.ok:
         locked = 'database is locked' in out.errstr()
         viol.append({'kind': 'same_flow_dump_failed',
@@ -162,7 +162,11 @@ def run_same_flow(case):
         counters['tables_compared'] += 1
         key = lambda r: (r['id'], r['v'])
         if got is None or sorted(map(key, got)) != sorted(map(key, expected)):
-            viol.append({'kind': 'same_flow_table_state', 'mech': 'same_flow/%s>%s' % (m1, m2),
+            # alternative model: the downstream UPDATE step looked for its keys before the upstream step's transaction was
+            # committed, found none and inserted: every row twice
+            uncommitted = m2 == 'update' and got is not None and sorted(map(key, got)) == sorted(map(key, rows + rows))
+            viol.append({'kind': 'same_flow_table_state',
+                         'mech': 'same-flow-update-before-upstream-commit' if uncommitted else 'same_flow/%s>%s' % (m1, m2),
                          'msg': '%r: table holds %r rows, expected %d' % (cfg, None if got is None else len(got), len(expected)),
                          'config': cfg})
         counters['flags_compared'] += 1   # no flags in this family: the counter says the family ran
